@@ -27,3 +27,14 @@ Definition e_stop_calls (ls : list elabel) : nat :=
 
 Definition e_stop_stuck (s : edeb) (t : nat) : Prop :=
   alookup t (e_stoppers s) = Some ESSend /\ e_fl s = EExited.
+
+(* "... and replaced": the pool is back at its configured size *)
+Definition pool_full (s : pool) : Prop := Z.of_nat (length (p_conns s)) = Z.max 0 (p_size s).
+
+(* schedules on which the environment is kind from now on: every dial succeeds, the keyspace can be
+   set, no connection fails, the pool is not closed (anything else may happen, in any order) *)
+Definition p_lucky (l : plabel) : bool :=
+  match l with
+  | ConnDie _ | PClose | DialFail _ | KsFail _ => false
+  | _ => true
+  end.
